@@ -191,26 +191,24 @@ def _same_cell(L, r, c):
     return cell(L.self, r, c) == cell(L.old(L.self), r, c)
 
 
+def _merged_cell(L, r, c, done):
+    """cell (r, c) == its entry value, plus other's entry value where `done` (one clause per loop: fewer nested facts)"""
+    return cell(L.self, r, c) == cell(L.old(L.self), r, c) + ite(done, cell(L.old(L.other), r, c), 0)
+
+
 loop(F_CMS, "CountMinSketch.merge", 1, modifies=[("CountMinSketch", "_counters")], inv=[
     ("shape", lambda L: cms_shape(L.self)),
     ("other-kept", _cms_other_kept),
-    ("done-rows-summed", lambda L: forall(Int, lambda r: forall(Int, lambda c: implies(
-        (0 <= r) & (r < L.i) & in_col(L.self, c), _sum_cell(L, r, c))))),
-    ("other-rows-untouched", lambda L: forall(Int, lambda r: forall(Int, lambda c: implies(
-        (L.i <= r) & (r < L.self._depth) & in_col(L.self, c), _same_cell(L, r, c))))),
+    ("done-rows-summed-other-rows-untouched", lambda L: forall(Int, lambda r: forall(Int, lambda c: implies(
+        in_row(L.self, r) & in_col(L.self, c), _merged_cell(L, r, c, r < L.i))))),
 ])
 loop(F_CMS, "CountMinSketch.merge", 2, modifies=[("CountMinSketch", "_counters")], inv=[
     ("shape", lambda L: cms_shape(L.self)),
     ("other-kept", _cms_other_kept),
     ("row-in-range", lambda L: in_row(L.self, L.row)),
-    ("rows-above-summed", lambda L: forall(Int, lambda r: forall(Int, lambda c: implies(
-        (0 <= r) & (r < L.row) & in_col(L.self, c), _sum_cell(L, r, c))))),
-    ("rows-below-untouched", lambda L: forall(Int, lambda r: forall(Int, lambda c: implies(
-        (L.row < r) & (r < L.self._depth) & in_col(L.self, c), _same_cell(L, r, c))))),
-    ("this-row-done-columns-summed", lambda L: forall(Int, lambda c: implies(
-        (0 <= c) & (c < L.i), _sum_cell(L, L.row, c)))),
-    ("this-row-other-columns-untouched", lambda L: forall(Int, lambda c: implies(
-        (L.i <= c) & (c < L.self._width), _same_cell(L, L.row, c)))),
+    ("rows-above-and-done-columns-summed-rest-untouched", lambda L: forall(Int, lambda r: forall(Int, lambda c: implies(
+        in_row(L.self, r) & in_col(L.self, c),
+        _merged_cell(L, r, c, (r < L.row) | ((r == L.row) & (c < L.i))))))),
 ])
 
 ghost(F_CMS, "CountMinSketch.add", "self._total_count += count", "self.g_true[item] = self.g_true.get(item, 0) + count")
@@ -1281,7 +1279,10 @@ def _bounded_tdigest_run(seed, tier):
             off = [(q, o) for q, o in zip(qs, out) if o < lo or o > hi]
             if off:
                 bad.append({"case": "tdigest-quantile-within-min-max", **where, "min": lo, "max": hi, "q": off[0][0], "v": off[0][1]})
-    return {"evaluations": ev, "violations": bad[:20]}
+    first = {}
+    for b in bad:                       # one witness per violated clause
+        first.setdefault(b["case"], b)
+    return {"evaluations": ev, "violations": list(first.values())}
 
 
 def _merkle_pair_ok(m1, t1, m2, t2):
